@@ -355,3 +355,23 @@ def watchdog(seconds=30.0):
     finally:
         signal.setitimer(signal.ITIMER_REAL, 0)
         signal.signal(signal.SIGALRM, old)
+
+
+# ----------------------------------------------------------------------------- deterministic ids (R6)
+_ID_STATE = {"n": 0, "salt": 0, "installed": False}
+
+
+def deterministic_ids(salt=0):
+    """Seam for the one source of randomness in the library: rating ids come from uuid.uuid4().  E2/E3 replace
+    it by a counter so that a run is a function of (PYTHONHASHSEED, salt) and can be compared across processes."""
+    import uuid
+
+    _ID_STATE["salt"] = int(salt)
+    _ID_STATE["n"] = 0
+    if not _ID_STATE["installed"]:
+        def uuid4():
+            _ID_STATE["n"] += 1
+            return uuid.UUID(int=((_ID_STATE["salt"] * 0x9E3779B97F4A7C15 + _ID_STATE["n"] * 0xD1B54A32D192ED03) % (1 << 128)))
+
+        uuid.uuid4 = uuid4
+        _ID_STATE["installed"] = True
